@@ -456,8 +456,17 @@ def pmap(func, chunks, procs=None):
     if len(chunks) <= 1 or procs <= 1:
         return [func(c) for c in chunks]
     ctx = mp.get_context("fork")
-    with ctx.Pool(procs) as pool:
-        return pool.map(func, chunks, chunksize=1)
+    # The parent holds the whole case list (millions of small objects in the thorough tier).  Without freezing, every
+    # full garbage collection in a worker walks that inherited heap (seconds of CPU - enough to trip a 10 s hang guard
+    # around a harmless call, seen in C15 thorough) and dirties its copy-on-write pages.
+    import gc
+    gc.collect()
+    gc.freeze()
+    try:
+        with ctx.Pool(procs) as pool:
+            return pool.map(func, chunks, chunksize=1)
+    finally:
+        gc.unfreeze()
 
 
 def chunked(seq, n):
